@@ -90,20 +90,24 @@ Definition first_failure (puts : list (N * N)) : N :=
 
 Definition was_put (puts : list (N * N)) (d : N) : bool := existsb (fun p => fst p =? d) puts.
 
+(* The Puts of the oracle that can have happened: FindMissing succeeded and
+   the blob is a missing blob of the batch. *)
+Definition eff (exp : list N) (o : oracle) : list (N * N) :=
+  if o_fm o =? 0 then filter (fun p => memN (fst p) exp) (o_puts o) else [].
+
 Definition flush_error (ferr : N) (exp : list N) (o : oracle) : N :=
   if negb (o_fm o =? 0) then o_fm o
   else match exp with
        | [] => ferr
        | _ =>
-         let ff := first_failure (o_puts o) in
+         let ff := first_failure (eff exp o) in
          if negb (ff =? 0) then ff
-         else if forallb (was_put (o_puts o)) exp then ferr
+         else if forallb (was_put (eff exp o)) exp then ferr
          else 1   (* a Put was not issued: AcquireSemaphore saw a cancelled context *)
        end.
 
 Definition stored (exp : list N) (o : oracle) : list N :=
-  if negb (o_fm o =? 0) then []
-  else map fst (filter (fun p => (snd p =? 0) && memN (fst p) exp) (o_puts o)).
+  map fst (filter (fun p => snd p =? 0) (eff exp o)).
 
 (* Are the Puts the oracle claims possible at all: only missing blobs of the
    batch, each at most once.  (Used by the correspondence check only.) *)
@@ -122,8 +126,8 @@ Definition flush_locked (b : bstore) (cas : list N) (o : oracle)
    fold_right addN cas (stored exp o),
    map snd (b_pending b)).
 
-Definition flush_call (b : bstore) (o : oracle) (ret : N) : ocall :=
-  mkOC ret (Some (sortN (keys b), o_fm o)) (if o_fm o =? 0 then o_puts o else []).
+Definition flush_call (b : bstore) (cas : list N) (o : oracle) (ret : N) : ocall :=
+  mkOC ret (Some (sortN (keys b), o_fm o)) (eff (expected b cas) o).
 
 Definition no_oracle := mkO 0 [].
 
@@ -137,8 +141,8 @@ Definition bput (batch : nat) (b : bstore) (cas : list N) (d : N) (buf : nat) (o
     let oo := match o with Some x => x | None => no_oracle end in
     let '(b1, cas1, used) := flush_locked b cas oo in
     let okc := match o with Some x => puts_possible (expected b cas) x | None => false end in
-    if negb (b_ferr b1 =? 0) then (b1, cas1, flush_call b oo (b_ferr b1), used ++ [buf], okc)
-    else (mkB (b_pending b1 ++ [(d, buf)]) (b_ferr b1), cas1, flush_call b oo 0, used, okc)
+    if negb (b_ferr b1 =? 0) then (b1, cas1, flush_call b cas oo (b_ferr b1), used ++ [buf], okc)
+    else (mkB (b_pending b1 ++ [(d, buf)]) (b_ferr b1), cas1, flush_call b cas oo 0, used, okc)
   else
     if negb (b_ferr b =? 0) then (b, cas, mkOC (b_ferr b) None [], [buf], match o with None => true | _ => false end)
     else (mkB (b_pending b ++ [(d, buf)]) (b_ferr b), cas, mkOC 0 None [], [], match o with None => true | _ => false end).
@@ -146,7 +150,7 @@ Definition bput (batch : nat) (b : bstore) (cas : list N) (d : N) (buf : nat) (o
 (* the flush function returned by NewBatchedStoreBlobAccess *)
 Definition bflush (b : bstore) (cas : list N) (o : oracle) : bstore * list N * ocall * list nat * bool :=
   let '(b1, cas1, used) := flush_locked b cas o in
-  (mkB [] 0, cas1, flush_call b o (b_ferr b1), used, puts_possible (expected b cas) o).
+  (mkB [] 0, cas1, flush_call b cas o (b_ferr b1), used, puts_possible (expected b cas) o).
 
 (* ---- executors -------------------------------------------------------------------- *)
 
